@@ -24,7 +24,7 @@ import (
 
 type Event = map[string]any
 
-var names = []string{"a", "b"}
+var names = []string{"a", "b", "x"} // x is not declared: it enters the store through lookups
 var upds = []string{"u1", "u2", "u3"}
 var getters = []string{"t1", "t2", "t3", "t4"}
 
@@ -121,7 +121,8 @@ func newHist(t *testing.T) *hist {
 		h.sv.ver[n] = 1
 	}
 	h.cache = &flakyCache{}
-	st, err := setec.NewStore(context.Background(), setec.StoreConfig{Client: h.sv, Secrets: names, PollInterval: -1, Logf: func(string, ...any) {}, Cache: h.cache})
+	st, err := setec.NewStore(context.Background(), setec.StoreConfig{Client: h.sv, Secrets: []string{"a", "b"}, AllowLookup: true, PollInterval: -1,
+		Logf: func(string, ...any) {}, Cache: h.cache})
 	if err != nil {
 		t.Fatal(err)
 	}
@@ -170,9 +171,20 @@ func (h *hist) install(S []string) {
 	h.log(Event{"ev": "iend"})
 }
 
-func (h *hist) newUpdater(x, name string) {
+func (h *hist) newUpdater(x, name string) { h.newUpdaterCtx(context.Background(), x, name) }
+
+// parkCtx blocks in Deadline(): the store asks a lookup's context for its deadline between "the name is not
+// known" and entering the flight for it, so a caller can be held exactly there.
+type parkCtx struct {
+	context.Context
+	gate chan struct{}
+}
+
+func (p parkCtx) Deadline() (time.Time, bool) { <-p.gate; return p.Context.Deadline() }
+
+func (h *hist) newUpdaterCtx(ctx context.Context, x, name string) {
 	h.log(Event{"ev": "nbegin", "u": x, "name": name})
-	u, err := setec.NewUpdater(context.Background(), h.st, name, h.builder(x, name))
+	u, err := setec.NewUpdater(ctx, h.st, name, h.builder(x, name))
 	h.mu.Lock()
 	h.created[x] = true
 	if err == nil {
@@ -302,6 +314,22 @@ func (h *hist) openGate(x string, g chan struct{}) {
 func gated(t *testing.T, r *rand.Rand) *hist {
 	h := newHist(t)
 	h.newUpdater("u1", "a")
+	if r.Intn(3) == 0 {
+		// two updaters on an undeclared name, created by racing lookups: the second caller found the name unknown
+		// but enters the flight only after the first caller's lookup has installed it (and fetches again)
+		g := make(chan struct{})
+		done := make(chan struct{})
+		go func() { h.newUpdaterCtx(parkCtx{Context: context.Background(), gate: g}, "u2", "x"); close(done) }()
+		time.Sleep(2 * time.Millisecond) // let it reach the gate (if it has not, the race simply does not happen)
+		h.newUpdater("u3", "x")
+		close(g)
+		<-done
+		for k := 1 + r.Intn(2); k > 0; k-- {
+			h.install([]string{"x"})
+			h.get("t1", "u2", true)
+			h.get("t1", "u3", true)
+		}
+	}
 	for round := 0; round < 2+r.Intn(2); round++ {
 		switch r.Intn(3) {
 		case 0: // creation with a slow first build
